@@ -117,6 +117,109 @@ theorem m7_exec_timed (t : ConnTxn Nat Cmd7 Rep7) (n : Node) (cs : List Cmd) (ts
   simp only [step, hin, herr, hw, checkWatch, if_true, Bool.false_eq_true, if_false]
   rw [hq, runQueue_ticks cs ts n n.s hl hm hn.2.symm]
 
+theorem monoFrom_append_left {a : Nat} {l1 l2 : List Nat} (h : MonoFrom a (l1 ++ l2)) : MonoFrom a l1 := by
+  induction l1 generalizing a with
+  | nil => trivial
+  | cons x l ih => exact ⟨h.1, ih h.2⟩
+
+theorem monoFrom_append_right {a : Nat} {l1 l2 : List Nat} (h : MonoFrom a (l1 ++ l2)) :
+    MonoFrom (l1.getLastD a) l2 := by
+  induction l1 generalizing a with
+  | nil => exact h
+  | cons x l ih =>
+    have := ih h.2
+    cases l with
+    | nil => exact h.2
+    | cons y l' => simpa [List.getLastD] using this
+
+/-- the verdict of the watch comparison when only time passes: the (i+1)-th snapshot is compared
+    with the reply of GET at the instant `ts[i]` -/
+def timedWatchFails (r : State) : List Nat → List (Nat × Rep7) → Bool
+  | t :: ts, (k, old) :: ws =>
+    if Rep7.data (Redis.step r t (.get k)).2 = old then timedWatchFails r ts ws else true
+  | _, _ => false
+
+theorem checkWatch_ticks (ws : List (Nat × Rep7)) : ∀ (ts rest : List Nat) (n : Node) (r : State),
+    ts.length = ws.length → MonoFrom n.now ts → n.s = purge r n.now →
+    (checkWatch backend7 (tickSched (ts ++ rest)) n ws).2.2 = timedWatchFails r ts ws ∧
+    (timedWatchFails r ts ws = false →
+      (checkWatch backend7 (tickSched (ts ++ rest)) n ws).1 = tickSched rest ∧
+      (checkWatch backend7 (tickSched (ts ++ rest)) n ws).2.1 =
+        { s := purge r (ts.getLastD n.now), now := ts.getLastD n.now }) := by
+  induction ws with
+  | nil =>
+    intro ts rest n r hl _ hr
+    cases ts with
+    | nil =>
+      refine ⟨rfl, fun _ => ⟨rfl, ?_⟩⟩
+      show n = { s := purge r n.now, now := n.now }
+      rw [← hr]
+    | cons _ _ => simp at hl
+  | cons p ws ih =>
+    intro ts rest n r hl hm hr
+    obtain ⟨k, old⟩ := p
+    cases ts with
+    | nil => simp at hl
+    | cons t ts' =>
+      obtain ⟨h1, h2⟩ := hm
+      have hl' : ts'.length = ws.length := by simpa using hl
+      have hs1 : foreign backend7 n [Cmd7.tick t] = { s := purge r t, now := t } := by
+        show ({ s := purge n.s t, now := t } : Node) = _
+        rw [hr, Redis.purge_purge_le r h1]
+      have hget : backend7.getReply { s := purge r t, now := t } k = .data (Redis.step r t (.get k)).2 := by
+        show Rep7.data (Redis.step (purge r t) t (.get k)).2 = _
+        rw [step_purge_le r (Nat.le_refl t)]
+      rw [show tickSched ((t :: ts') ++ rest) = [Cmd7.tick t] :: tickSched (ts' ++ rest) from rfl]
+      simp only [checkWatch, List.headD_cons, List.tail_cons, timedWatchFails, hs1, hget]
+      by_cases he : Rep7.data (Redis.step r t (.get k)).2 = old
+      · rw [if_pos he, if_pos he]
+        obtain ⟨a, b⟩ := ih ts' rest { s := purge r t, now := t } r hl' h2 rfl
+        refine ⟨a, fun hf => ?_⟩
+        obtain ⟨b1, b2⟩ := b hf
+        refine ⟨b1, ?_⟩
+        rw [b2]
+        cases ts' with
+        | nil => rfl
+        | cons x xs => simp [List.getLastD]
+      · rw [if_neg he, if_neg he]
+        exact ⟨rfl, fun hf => by cases hf⟩
+
+/-- **EXEC when only time passes, watch comparison included**: the clock reads `tw[i]` when the
+    (i+1)-th snapshot is compared and `tq[j]` when the (j+1)-th queued command is replayed
+    (non-decreasing).  EXEC answers nil iff some snapshot differs from the reply of GET AT THE INSTANT
+    OF ITS COMPARISON (a watched key whose deadline is reached while EXEC is comparing is a change);
+    otherwise its results are `Redis.run` of the queue at the instants of replay. -/
+theorem m7_exec_timed_watch (t : ConnTxn Nat Cmd7 Rep7) (n : Node) (cs : List Cmd) (tw tq : List Nat)
+    (hin : t.inTxn = true) (herr : t.errors = false) (hq : t.queue = cs.map .data)
+    (hlw : tw.length = t.watched.length) (hlq : tq.length = cs.length)
+    (hm : MonoFrom n.now (tw ++ tq)) (hn : NodeOk n) :
+    (step backend7 (tickSched (tw ++ tq)) t n .exec).2.2 =
+      if timedWatchFails n.s tw t.watched then .nil
+      else .results ((Redis.run n.s (tq.zip cs)).2.map .data) := by
+  have hmw : MonoFrom n.now tw := monoFrom_append_left hm
+  obtain ⟨v, rest⟩ := checkWatch_ticks t.watched tw tq n n.s hlw hmw hn.2.symm
+  simp only [step, hin, herr, if_true, Bool.false_eq_true, if_false]
+  rw [v]
+  cases hf : timedWatchFails n.s tw t.watched
+  · obtain ⟨r1, r2⟩ := rest hf
+    simp only [Bool.false_eq_true, if_false]
+    rw [r1, r2, hq]
+    have hmq : MonoFrom (tw.getLastD n.now) tq := monoFrom_append_right hm
+    rw [runQueue_ticks cs tq { s := purge n.s (tw.getLastD n.now), now := tw.getLastD n.now } n.s hlq hmq rfl]
+  · simp
+
+/-- non-vacuity of `m7_exec_timed_watch`: a watched key with deadline 1100; the comparison happens
+    at 1100: nil.  At 1099: the queue runs, and its second GET (at 1100) finds the key gone. -/
+example :
+    let n : Node := { s := [(1, { val := .str [118], dl := some 1100 })], now := 1000 }
+    let t : ConnTxn Nat Cmd7 Rep7 :=
+      { inTxn := true, queue := [.data (.get 1), .data (.get 1)], errors := false,
+        watched := [(1, .data (.bulk [118]))] }
+    (step backend7 (tickSched ([1100] ++ [1100, 1100])) t n .exec).2.2 = .nil ∧
+    (step backend7 (tickSched ([1099] ++ [1099, 1100])) t n .exec).2.2 =
+      .results [.data (.bulk [118]), .data .nil] := by
+  decide
+
 /-- non-vacuity of `m7_exec_timed`: `SET k v PX 100` at 1000, then `MULTI; GET k; GET k; EXEC` with
     the clock at 1099 for the first GET and at 1100 for the second: `[v, nil]` -/
 example :
